@@ -46,7 +46,8 @@ def planar_convex(P, f):
         return True
     N = vec_area(P, f)
     nn = math.sqrt(sum(x * x for x in N))
-    if nn < 1e-12:
+    L2 = max(sum((P[f[j]][k] - P[f[j - 1]][k]) ** 2 for k in range(3)) for j in range(len(f)))  # (longest side)^2: the face's own scale
+    if nn < 1e-12 * L2 or L2 == 0.0:
         return False
     n = len(f)
     for j in range(n):
@@ -55,7 +56,7 @@ def planar_convex(P, f):
         cr = (u[1] * v[2] - u[2] * v[1], u[2] * v[0] - u[0] * v[2], u[0] * v[1] - u[1] * v[0])
         cn = math.sqrt(sum(x * x for x in cr))
         dot = sum(x * y for x, y in zip(cr, N))
-        if dot < -1e-12 * nn or abs(dot - cn * nn) > 1e-9 * max(cn * nn, 1e-300) + 1e-15:
+        if dot < -1e-12 * nn * L2 or abs(dot - cn * nn) > 1e-9 * cn * nn + 1e-15 * L2 * L2:  # every tolerance relative to the face's size
             return False
     return True
 
